@@ -17,7 +17,8 @@ def bus_types():
 
 def install(model, case, reuse_streams=False):
     """stoch hooks + pub/sub bus with scripted listeners (subscribed in the generated order)"""
-    stoch.install(model, case["seeds"], with_stats=True, reuse_streams=reuse_streams)
+    stoch.install(model, case["seeds"], with_stats=True, reuse_streams=reuse_streams,
+                  default_info=bool(case.get("default_info")))
     base_construct = model.extra_construct
     base_action = model.extra_action
     bus = case["bus"]
